@@ -672,7 +672,7 @@ fn gen_temporal_unit_inner(r: &mut Rng, key: bool, with_seq: bool, payload_len: 
         let n = r.usize_below(20) + 1;
         let mut md = r.bytes(n);
         md[0] &= 0x7f;
-        bytes.extend_from_slice(&obu(5, &md, true, None));
+        bytes.extend_from_slice(&obu(5, &md, true, if r.chance(1, 5) { Some(r.byte() & 0xf8) } else { None }));
     }
     // frame OBU: show_existing_frame=0, frame_type (2 bits), show_frame=1, then noise
     let mut fp = r.bytes(payload_len.max(1));
